@@ -16,10 +16,14 @@ package router
 
 // Sending a ping builds, seals and routes a new frame. Like sendError it is assumed not to touch the frame being
 // handled, the handlers' own tables or the configuration.
+// (For callers the frame is assumed. In the C10 scope the body is checked for one thing: a ping that is signed raw -
+// its destination is not known yet - leaves with the TTL every originated frame starts with, 32, so the bound "31
+// links for frames a router originates" holds for it too.)
 //@ func Router.sendPingMsg
-//@   option trusted
+//@   option trusted clausesonly noinv
 //@   modifies nothing
 //@   havoc F|state., F|peering., F|switchr., F|m.RoutingTable, MP|
+//@   callsite frame.FrameV1.SetTTL originated-pings-start-at-ttl-32 [C10]: arg1 == 0 || arg1 == 32
 
 //@ type helloPingState
 //@   invariant exchange [C13]: self.encSession != nil && self.notify != nil
